@@ -5,6 +5,7 @@ import (
 	"fmt"
 	"strconv"
 	"strings"
+	"sync"
 
 	pg_query "github.com/cossacklabs/pg_query_go/v5"
 	pg_query_parser "github.com/cossacklabs/pg_query_go/v5/parser"
@@ -23,6 +24,9 @@ import (
 //	C16.pgerr <stmt-hex> <raw-message-hex|-> <cursor>
 //	   the real encryptor/postgresql.ParseQuery → ok <hex of the error text> | parsed
 //	   (raw message and cursor position of pg_query's own error are inputs of the model only)
+//	C16.pgsan <message-hex> <cursor>
+//	   the REAL rewriting code of ParseQuery (zz_parsequery.go: the function as it stands in /repo, regenerated on every
+//	   run, with pg_query.Parse replaced by a parser that fails with the given message) → ok <hex of the error text>
 func init() {
 	core.Register("C16.numerr", func(a []string) string {
 		err := convErr(a[0], core.Atoi(a[1]), string(core.UnHex(a[2])))
@@ -31,6 +35,20 @@ func init() {
 		}
 		return "ok " + core.Hex([]byte(utils.ErrorWithoutValue(err).Error()))
 	})
+	core.Register("C16.pgsan", func(a []string) string {
+		pgSanMu.Lock()
+		defer pgSanMu.Unlock()
+		old := pgParseInjected
+		defer func() { pgParseInjected = old }()
+		pgParseInjected = func(string) (*pg_query.ParseResult, error) {
+			return nil, &pg_query_parser.Error{Message: string(core.UnHex(a[0])), Cursorpos: core.Atoi(a[1])}
+		}
+		_, err := parseQueryCopy("select")
+		if err == nil {
+			return "parsed"
+		}
+		return "ok " + core.Hex([]byte(err.Error()))
+	})
 	core.Register("C16.pgerr", func(a []string) string {
 		_, err := pgenc.ParseQuery(string(core.UnHex(a[0])))
 		if err == nil {
@@ -38,6 +56,43 @@ func init() {
 		}
 		return "ok " + core.Hex([]byte(err.Error()))
 	})
+}
+
+var pgSanMu sync.Mutex
+
+// pgKinds: the fixed texts PostgreSQL's scanner and grammar put in front of ` at or near "<token>"` (Props/C16.pgKinds)
+var pgKinds = []string{"syntax error", "unterminated quoted string", "unterminated dollar-quoted string", "unterminated quoted identifier",
+	"unterminated /* comment", "unterminated bit string literal", "unterminated hexadecimal string literal", "zero-length delimited identifier",
+	"trailing junk after numeric literal", "invalid Unicode escape", "operator too long"}
+
+// pgTokenForms: statements the PostgreSQL parser rejects AT a token that contains the words ` at or near ` – a string
+// literal in a wrong place, the rest of an unterminated quoted / dollar-quoted / E string, a quoted identifier in a wrong
+// place. {M} is a marker inside the token (before and after the phrase).
+var pgTokenForms = []string{
+	"select a from t where b = 'x' '{M} was seen at or near the gate {M}'",
+	"select a from t where b = {L} 'note: {M} at or near {M}'",
+	"select a from t where b = 'unterminated {M} was seen at or near the {M} gate",
+	"select a from t where b = {L} and c = '{M} at or near \"quoted\" {M}\nnext line at or near end",
+	"select a from t where b = $q${M} seen at or near the gate {M}",
+	"select a from t where b = $${M} at or near {M} $ $",
+	"select a from t where b = E'esc \\' {M} at or near {M}",
+	"select a from t \"alias\" \"{M} at or near {M}\"",
+	"insert into t (a) values ('ok') '{M} at or near {M} at or near {M}'",
+	"update t set a = 'v' '{M} at or near '' {M}' where b = 1",
+	"select 1 /* comment {M} at or near {M}",
+	"select a from t where b = '{M} at or near ",
+	"select a from t where b = 'x' ' at or near {M}'",
+}
+
+// instantiateToken fills a pgTokenForm: every {M} gets its own marker (returned), {L} an ordinary literal.
+func instantiateToken(form string, rd *core.Rand) (stmt string, markers []string) {
+	for strings.Contains(form, "{M}") {
+		m := strMarker(9, rd)
+		form = strings.Replace(form, "{M}", m, 1)
+		markers = append(markers, m)
+	}
+	stmt, ms, _ := Instantiate(Template{"broken", "", form}, "pg", rd, nil)
+	return stmt, append(markers, ms...)
 }
 
 func convErr(fn string, bits int, v string) error {
@@ -130,7 +185,12 @@ func runErrTexts(r *core.Run) {
 	for i := 0; i < r.N(150, 3000); i++ {
 		var stmt string
 		var ms []string
-		if rd.Chance(50) {
+		phrase := false
+		if i%3 == 0 {
+			// the offending token itself contains ` at or near `
+			stmt, ms = instantiateToken(pgTokenForms[(i/3)%len(pgTokenForms)], rd)
+			phrase = true
+		} else if rd.Chance(50) {
 			form := strings.ReplaceAll(brokenForms[rd.Intn(len(brokenForms))], "{M}", strMarker(9, rd))
 			stmt, ms, _ = Instantiate(Template{"broken", "", form}, "pg", rd, nil)
 			if j := strings.Index(form, "Zq9x"); j >= 0 {
@@ -144,6 +204,9 @@ func runErrTexts(r *core.Run) {
 		r.Begin("pgerr:"+line, true, "stream:malformed", "errtext:pgerr")
 		out := r.Do(line)
 		r.Tag("pgerr:" + strings.Fields(out)[0])
+		if phrase {
+			r.Tag("pgerr:token-contains-phrase")
+		}
 		if strings.HasPrefix(out, "ok ") {
 			text := core.UnHex(out[3:])
 			for _, m := range ms {
@@ -151,6 +214,57 @@ func runErrTexts(r *core.Run) {
 					r.Fail("pg-syntax-error-quotes-token", fmt.Sprintf("postgresql.ParseQuery(%q) fails with %q, which carries the literal %q", stmt, text, m))
 					break
 				}
+			}
+		}
+	}
+	// the rewriting code of ParseQuery on GENERATED parser messages `<kind> at or near <token>`: PostgreSQL's kinds, tokens
+	// of every sort (quotes, line breaks, non-ASCII, the phrase itself once or several times, nothing at all), and messages
+	// without the phrase
+	tokPieces := []string{" at or near ", "at or near", " at or near", "\"", "'", "\n", "\r\n", " ", "é", "\x00", "$$", "\\", " at position ", "%s", "%d", "%!d(string="}
+	for i := 0; i < r.N(200, 4000); i++ {
+		kind := core.Pick(rd, pgKinds)
+		var ms []string
+		var tok strings.Builder
+		tok.WriteString("\"")
+		for k := 1 + rd.Intn(5); k > 0; k-- {
+			if rd.Chance(50) {
+				m := strMarker(k, rd)
+				ms = append(ms, m)
+				tok.WriteString(m)
+			} else {
+				tok.WriteString(core.Pick(rd, tokPieces))
+			}
+		}
+		if rd.Chance(70) {
+			tok.WriteString("\"")
+		}
+		msg := kind + " at or near " + tok.String()
+		switch rd.Intn(12) {
+		case 0:
+			msg = kind // no token at all (e.g. "syntax error at end of input" style messages)
+			ms = nil
+		case 1:
+			msg = kind + " at end of input"
+			ms = nil
+		case 2:
+			msg = ""
+			ms = nil
+		}
+		pos := rd.Intn(2000)
+		line := fmt.Sprintf("C16.pgsan %s %d", core.Hex([]byte(msg)), pos)
+		r.Begin("pgsan:"+line, true, "stream:structured", "errtext:pgsan")
+		out := r.Do(line)
+		if strings.HasPrefix(out, "ok ") {
+			text := core.UnHex(out[3:])
+			for _, m := range ms {
+				if containsMarker(text, m) {
+					r.Fail("pg-syntax-error-quotes-token", fmt.Sprintf("ParseQuery's rewriting of the parser message %q gives %q, which carries %q of the token", msg, text, m))
+					break
+				}
+			}
+			if len(ms) > 0 {
+				want := fmt.Sprintf("%s at position %d", kind, pos)
+				r.Check(string(text) == want, "pg-syntax-error-quotes-token", fmt.Sprintf("ParseQuery's rewriting of the parser message %q gives %q; kind and position alone give %q", msg, text, want))
 			}
 		}
 	}
